@@ -6,13 +6,20 @@
 //   - can make Close return an error (after closing the inner connection, the way CommandTransport
 //     reports a child's exit status), make Read fail at an instant, make Write fail from an instant on.
 //
+// Below the connections, the byte stream of either side can STOP READING for a while (ksStall): nothing
+// is lost, but the other side's writes block until the reading resumes — ioConn.Write does not look at
+// its context while the stream write is blocked, so a ping written then OVERRUNS its deadline, ticks
+// fire meanwhile (one stays pending), and the loop serves the pending tick the moment the ping is over.
+//
 // Keep-alive is enabled on the client, the server or both.  One end event happens at a PRNG-chosen
 // instant (before the first tick, while a ping is in flight, between two ticks): Close of either
 // session, a read failure or a write failure on either side, or nothing; at the horizon both
 // sessions are closed.  Observed per keep-alive side, in that side's own time (0 = its Connect):
 //   - every ping ATTEMPT of the session (sending middleware: instant, deadline, result, duration);
 //     these results, in order, are the ping outcomes the property quantifies over — they go into the
-//     op (`script=`), padded with `x` for ticks before the cancellation on which nothing was tried;
+//     op (`script=`), padded with `x` for pings that were due before the cancellation and not tried; a
+//     ping that lasted longer than half an interval is written in capitals when it returned the moment
+//     its transport write returned (the write was blocked), else it is a ping that ignored its deadline;
 //   - every keep-alive log record (tolerated miss = WARN, closing = ERROR) with its instant;
 //   - the instant the transport connection was closed (`shut`);
 //   - whether that side's startKeepalive goroutine exists (runtime.Stack of the bubble, attributed by
@@ -30,6 +37,7 @@ import (
 	"io"
 	"log/slog"
 	"math/rand"
+	"net"
 	"os"
 	"runtime"
 	"strconv"
@@ -63,7 +71,10 @@ type ksScn struct {
 	te   int64       // instant of the end event, from the server's Connect
 	tH   int64       // horizon: both sessions are closed
 	pv   int         // index into ksLegacy
+	st   [2]ksStall  // st[side]: that side's byte stream does not read during [from, from+d)
 }
+
+type ksStall struct{ from, d int64 } // units, from the server's Connect; d == 0: none
 
 func ksSteps(l []kaStep) string {
 	if len(l) == 0 {
@@ -110,9 +121,15 @@ func b2i(b bool) int {
 }
 
 func (sc *ksScn) String() string {
-	return fmt.Sprintf("ka:%s/u:%d/Ic:%d/Tc:%d/Is:%d/Ts:%d/wc:%s/ws:%s/ce:%d/se:%d/end:%s@%d/H:%d/pv:%d",
+	s := fmt.Sprintf("ka:%s/u:%d/Ic:%d/Tc:%d/Is:%d/Ts:%d/wc:%s/ws:%s/ce:%d/se:%d/end:%s@%d/H:%d/pv:%d",
 		sc.ka, sc.u, sc.I[0], sc.T[0], sc.I[1], sc.T[1], ksSteps(sc.wire[0]), ksSteps(sc.wire[1]),
 		b2i(sc.cerr[0]), b2i(sc.cerr[1]), sc.end, sc.te, sc.tH, sc.pv)
+	for side, n := range []string{"stc", "sts"} {
+		if sc.st[side].d > 0 {
+			s += fmt.Sprintf("/%s:%d+%d", n, sc.st[side].from, sc.st[side].d)
+		}
+	}
+	return s
 }
 
 func ksParseScn(s string) (*ksScn, bool) {
@@ -143,6 +160,15 @@ func ksParseScn(s string) (*ksScn, bool) {
 	sc.end = e[0]
 	te, err := strconv.ParseInt(e[1], 10, 64)
 	sc.te = te
+	for side, n := range []string{"stc", "sts"} {
+		if v, ok := kv[n]; ok {
+			var f, d int64
+			if _, err := fmt.Sscanf(v, "%d+%d", &f, &d); err != nil || f <= ksPhase || d <= 0 {
+				return nil, false
+			}
+			sc.st[side] = ksStall{f, d}
+		}
+	}
 	okEnd := map[string]bool{"none": true, "cc": true, "sc": true, "cr": true, "sr": true, "cw": true, "sw": true}[sc.end]
 	if err != nil || !ok1 || !ok2 || !okEnd || (sc.ka != "c" && sc.ka != "s" && sc.ka != "b") ||
 		sc.u < 1 || sc.I[0] < 2 || sc.I[1] < 2 || sc.tH <= ksPhase || sc.pv < 0 || sc.pv >= len(ksLegacy) ||
@@ -160,8 +186,9 @@ func (sc *ksScn) has(side int) bool {
 // observation
 
 type ksPing struct {
-	at, dur, to int64 // absolute ns, ns, ns (-1: no deadline)
+	at, dur, to int64 // absolute ns, ns, ns (what was left until the deadline; -1<<62: no deadline)
 	kind        byte  // 'a' nil, 'm' errors.Is(err, jsonrpc2.ErrMethodNotFound), 'e' any other error
+	blocked     bool  // it returned at the very instant its (blocked) transport write returned
 }
 
 type ksSide struct {
@@ -202,7 +229,7 @@ func (r *ksRun) mw(side int) Middleware {
 				return next(ctx, method, req)
 			}
 			at := r.now()
-			to := int64(-1)
+			to := int64(-1 << 62)
 			if dl, ok := ctx.Deadline(); ok {
 				to = dl.Sub(r.t0).Nanoseconds() - at
 			}
@@ -215,7 +242,14 @@ func (r *ksRun) mw(side int) Middleware {
 				}
 			}
 			s.mu.Lock()
-			s.pings = append(s.pings, ksPing{at: at, dur: r.now() - at, to: to, kind: k})
+			end := r.now()
+			blocked := false
+			if c := s.conn; c != nil {
+				c.mu.Lock()
+				blocked = c.pingWrBlocked && c.pingWrEnd == end && c.pingWrStart >= at
+				c.mu.Unlock()
+			}
+			s.pings = append(s.pings, ksPing{at: at, dur: end - at, to: to, kind: k, blocked: blocked})
 			s.mu.Unlock()
 			return res, err
 		}
@@ -316,6 +350,48 @@ type ksConn struct {
 	writeFail atomic.Bool
 	mu        sync.Mutex
 	idx       int
+	// the last ping this side wrote: when its Write was entered and left, and whether that took time
+	pingWrStart, pingWrEnd int64
+	pingWrBlocked          bool
+	// wlock serialises the writes to the inner connection the way ioConn's own mutex does (not looking at
+	// any context) — but as a channel: a goroutine that waits for a sync.Mutex is not durably blocked, and
+	// the bubble's clock would stand still while a write is blocked behind a stalled one
+	wlock chan struct{}
+	slow  [][2]int64 // Write calls of this side that took time: entered, left (absolute ns)
+}
+
+func (c *ksConn) innerWrite(ctx context.Context, msg jsonrpc.Message) error {
+	c.wlock <- struct{}{}
+	defer func() { <-c.wlock }()
+	return c.Connection.Write(ctx, msg)
+}
+
+// ksStallRWC is one end of the in-memory byte stream; during [from, to) (absolute ns) it does not read,
+// so the other end's writes block (net.Pipe is unbuffered).  Nothing is lost.
+type ksStallRWC struct {
+	net.Conn
+	r        *ksRun
+	from, to int64
+}
+
+func (c *ksStallRWC) Read(b []byte) (int, error) {
+	for {
+		now := c.r.now()
+		if now >= c.from && now < c.to {
+			time.Sleep(time.Duration(c.to - now))
+			continue
+		}
+		if now < c.from {
+			c.Conn.SetReadDeadline(c.r.t0.Add(time.Duration(c.from)))
+		} else {
+			c.Conn.SetReadDeadline(time.Time{})
+		}
+		n, err := c.Conn.Read(b)
+		if n == 0 && errors.Is(err, os.ErrDeadlineExceeded) {
+			continue // the stall begins
+		}
+		return n, err
+	}
 }
 
 type ksTransport struct {
@@ -330,7 +406,7 @@ func (t *ksTransport) Connect(ctx context.Context) (Connection, error) {
 		return nil, err
 	}
 	c := &ksConn{Connection: inner, r: t.r, side: t.side, in: make(chan ksItem), inj: make(chan jsonrpc.Message, 256),
-		done: make(chan struct{}), readFail: make(chan struct{})}
+		done: make(chan struct{}), readFail: make(chan struct{}), wlock: make(chan struct{}, 1)}
 	t.r.side[t.side].conn = c
 	go func() { // pump: the only reader of the inner connection
 		for {
@@ -372,9 +448,17 @@ func (c *ksConn) Write(ctx context.Context, msg jsonrpc.Message) error {
 	if c.writeFail.Load() {
 		return errKsWrite
 	}
+	entered := c.r.now()
+	defer func() {
+		if left := c.r.now(); left > entered {
+			c.mu.Lock()
+			c.slow = append(c.slow, [2]int64{entered, left})
+			c.mu.Unlock()
+		}
+	}()
 	req, ok := msg.(*jsonrpc.Request)
 	if !ok || !req.IsCall() || req.Method != methodPing {
-		return c.Connection.Write(ctx, msg)
+		return c.innerWrite(ctx, msg)
 	}
 	c.mu.Lock()
 	st := kaStep{'a', 0} // past the script: a healthy wire
@@ -382,18 +466,25 @@ func (c *ksConn) Write(ctx context.Context, msg jsonrpc.Message) error {
 		st = w[c.idx]
 	}
 	c.idx++
+	c.pingWrStart, c.pingWrEnd, c.pingWrBlocked = c.r.now(), -1, false
 	c.mu.Unlock()
+	defer func() {
+		c.mu.Lock()
+		c.pingWrEnd = c.r.now()
+		c.pingWrBlocked = c.pingWrEnd > c.pingWrStart
+		c.mu.Unlock()
+	}()
 	d := time.Duration(st.d * c.r.sc.u)
 	switch st.kind {
 	case 'n':
 		return nil // lost on the wire
 	case 'a':
 		if d == 0 {
-			return c.Connection.Write(ctx, msg)
+			return c.innerWrite(ctx, msg)
 		}
 		go func() {
 			time.Sleep(d)
-			c.Connection.Write(context.Background(), msg) // fails harmlessly once the pipe is closed
+			c.innerWrite(context.Background(), msg) // fails harmlessly once the pipe is closed
 		}()
 		return nil
 	}
@@ -473,6 +564,11 @@ func ksRunScn(t *testing.T, sc *ksScn, flushLeak func([]ksRec)) (recs []ksRec) {
 		}
 		ctx := context.Background()
 		ct, st := NewInMemoryTransports()
+		for side, tr := range []*InMemoryTransport{ct, st} {
+			if w := sc.st[side]; w.d > 0 {
+				tr.rwc = &ksStallRWC{Conn: tr.rwc.(net.Conn), r: r, from: w.from * sc.u, to: (w.from + w.d) * sc.u}
+			}
+		}
 
 		so := &ServerOptions{Logger: slog.New(ksLog{r, ksServer})}
 		if sc.has(ksServer) {
@@ -584,25 +680,30 @@ func ksRunScn(t *testing.T, sc *ksScn, flushLeak func([]ksRec)) (recs []ksRec) {
 			I := sc.I[side] * sc.u
 			cancel := callAt[side] - s.phi
 			var script []kaStep
-			var at []int64
-			to := "-"
-			inflight, before := false, 0
-			for i, p := range s.pings {
+			var at, tos []int64
+			inflight, before, overrun, blockedAtClose := false, 0, false, false
+			for _, p := range s.pings {
 				if p.at < callAt[side] {
 					before++
 				}
-				script = append(script, kaStep{p.kind, p.dur})
-				at = append(at, p.at)
-				if v := strconv.FormatInt(p.to, 10); i == 0 {
-					to = v
-				} else if v != to {
-					to = "mixed"
+				k := p.kind
+				if p.dur > I/2 && p.blocked {
+					k, overrun = k-'a'+'A', true // it overran its deadline while its write was blocked
 				}
+				script = append(script, kaStep{k, p.dur})
+				at = append(at, p.at)
+				tos = append(tos, p.to)
 				if p.at < callAt[side] && callAt[side] < p.at+p.dur {
 					inflight = true
+					blockedAtClose = p.blocked && p.dur > I/2
 				}
 			}
-			for int64(len(script)) < (cancel-1)/I {
+			to := kaTos(tos)
+			for n := 0; n < 1000; n++ { // pings that were due before the Close call and were not tried
+				starts, _ := kaSchedule(I, append(script[:len(script):len(script)], kaStep{'x', 0}))
+				if starts[len(script)] >= cancel {
+					break
+				}
 				script = append(script, kaStep{'x', 0})
 			}
 			a1 := "-"
@@ -615,6 +716,22 @@ func ksRunScn(t *testing.T, sc *ksScn, flushLeak func([]ksRec)) (recs []ksRec) {
 			if s.shut >= 0 {
 				shut = strconv.FormatInt(s.shut-s.phi, 10)
 			}
+			// the session's Close waits for transport writes that are under way: when keep-alive reported
+			// closing at c, until when was a write of this side blocked
+			wblk := "-"
+			if len(s.errs) > 0 && s.conn != nil {
+				s.conn.mu.Lock()
+				w := int64(-1)
+				for _, iv := range s.conn.slow {
+					if iv[1] > s.errs[0] && iv[1] > w && (s.shut < 0 || iv[0] < s.shut) {
+						w = iv[1]
+					}
+				}
+				s.conn.mu.Unlock()
+				if w >= 0 {
+					wblk = strconv.FormatInt(w-s.phi, 10)
+				}
+			}
 			exit := 1
 			if live3[side] > 0 {
 				exit = 0
@@ -622,8 +739,8 @@ func ksRunScn(t *testing.T, sc *ksScn, flushLeak func([]ksRec)) (recs []ksRec) {
 			}
 			op := fmt.Sprintf("kss side=%s I=%d T=%d script=%s cancel=%d at=%s,%d scn=%s", "cs"[side:side+1], I, sc.T[side],
 				strings.ReplaceAll(ksSteps(script), ".", ","), cancel, sAt, s2-s.phi, sc)
-			obs := fmt.Sprintf("pings=%s to=%s close=%s exit=%d late=%d warn=%s shut=%s live=%s%d", ksLocal(at, s.phi), to, ksLocal(s.errs, s.phi),
-				exit, s.latePings+s.lateLogs, ksLocal(s.warns, s.phi), shut, a1, live2[side])
+			obs := fmt.Sprintf("pings=%s to=%s close=%s exit=%d late=%d warn=%s shut=%s live=%s%d wblk=%s", ksLocal(at, s.phi), to, ksLocal(s.errs, s.phi),
+				exit, s.latePings+s.lateLogs, ksLocal(s.warns, s.phi), shut, a1, live2[side], wblk)
 			tags := []string{"ka=" + sc.ka, "side=" + "cs"[side:side+1], "end=" + sc.end, fmt.Sprintf("T=%d", sc.T[side]), fmt.Sprintf("len=%d", len(s.pings))}
 			if sc.cerr[side] {
 				tags = append(tags, "close-returns-error")
@@ -641,6 +758,18 @@ func ksRunScn(t *testing.T, sc *ksScn, flushLeak func([]ksRec)) (recs []ksRec) {
 			}
 			if len(s.errs) > 0 {
 				tags = append(tags, "closed-by-keepalive")
+			}
+			if sc.st[1-side].d > 0 {
+				tags = append(tags, "peer-stops-reading")
+			}
+			if sc.st[side].d > 0 {
+				tags = append(tags, "stops-reading")
+			}
+			if overrun {
+				tags = append(tags, "has-overrun")
+			}
+			if own && blockedAtClose {
+				tags = append(tags, "closed-while-write-blocked")
 			}
 			seen := map[byte]bool{}
 			for _, p := range s.pings {
@@ -817,12 +946,31 @@ func ksRandom(rng *rand.Rand, maxLen, maxT int) *ksScn {
 	default: // between the end of ping k and tick k+1
 		sc.te = phi + k*I + I/2 + 7 + 10*rng.Int63n(I/20-1)
 	}
+	from := sc.te
 	if sc.end == "none" {
 		sc.te = 0
-		sc.tH = ksHorizon(sc, int64(maxN+1)*5000)
-	} else {
-		sc.tH = ksHorizon(sc, sc.te)
+		from = int64(maxN+1) * 5000
 	}
+	if rng.Intn(4) == 0 {
+		// the peer of the reference side stops reading: from shortly before tick j of the reference side
+		// (or while its ping j-1 may still be in flight) until x intervals after that tick
+		j := int64(1 + rng.Intn(len(sc.wire[ref])+2))
+		lead := []int64{47, 147, 447, I/2 + 147}[rng.Intn(4)]
+		x := []int64{I / 4, 8 * I / 10, 13 * I / 10, 16 * I / 10, 26 * I / 10, 31 * I / 10}[rng.Intn(6)]
+		sc.st[1-ref] = ksStall{phi + j*I - lead, lead + x + 6}
+		if int(j) <= len(sc.wire[ref]) && rng.Intn(4) > 0 {
+			sc.wire[ref][j-1] = kaStep{'a', 0} // that ping is written to the stalled stream
+		}
+		if sc.end != "none" && rng.Intn(2) == 0 {
+			// the end event while that write is (or may be) blocked
+			sc.te = phi + j*I + 7 + 10*rng.Int63n((x+9)/10)
+			from = sc.te
+		}
+		if e := sc.st[1-ref].from + sc.st[1-ref].d; e > from {
+			from = e
+		}
+	}
+	sc.tH = ksHorizon(sc, from)
 	return sc
 }
 
@@ -866,6 +1014,46 @@ func ksMatrix() []*ksScn {
 							out = append(out, sc)
 						}
 					}
+				}
+			}
+		}
+	}
+	return out
+}
+
+// ksStallMatrix: the systematic part for the fault "the peer stops reading": keep-alive side(s) x
+// thresholds 2, 3 x the peer resumes 0.25 / 0.8 / 1.3 / 1.6 / 2.6 intervals after the tick whose ping it
+// blocked (no overrun / overrun without a missed tick / a pending tick served 0.3 resp. 0.6 intervals
+// late / a pending and a dropped tick) x (nothing else happens / the keep-alive side's session is closed
+// while the write is blocked / after the peer has resumed); the wire is healthy.
+func ksStallMatrix() []*ksScn {
+	var out []*ksScn
+	const I = 1000
+	for ki, ka := range []string{"c", "s", "b"} {
+		for _, T := range []int{2, 3} {
+			for xi, x := range []int64{250, 800, 1300, 1600, 2600} {
+				for ev := 0; ev < 3; ev++ {
+					sc := &ksScn{ka: ka, u: 1, end: "none", I: [2]int64{I, I}, T: [2]int{T, T}, pv: (ki + xi + ev) % len(ksLegacy)}
+					side := ksClient // the side whose pings are blocked
+					if ka == "s" || (ka == "b" && (xi+ev)%2 == 1) {
+						side = ksServer
+					}
+					phi := int64(0)
+					if side == ksClient {
+						phi = ksPhase
+					}
+					sc.st[1-side] = ksStall{phi + 2*I - 147, 147 + x + 6} // from just before tick 2
+					last := phi + 2*I + x + 6
+					switch ev {
+					case 1:
+						sc.end, sc.te = []string{"cc", "sc"}[side], phi+2*I+x/2+7
+					case 2:
+						sc.end, sc.te = []string{"cc", "sc"}[side], last+I/2+201
+						last = sc.te
+					}
+					sc.cerr = [2]bool{ev == 1 && xi%2 == 0, ev == 1 && xi%2 == 0}
+					sc.tH = ksHorizon(sc, last+I)
+					out = append(out, sc)
 				}
 			}
 		}
@@ -940,6 +1128,9 @@ func TestVerifKeepAliveSess(t *testing.T) {
 	if os.Getenv("VERIF_CASES") == "" {
 		for _, sc := range ksMatrix() {
 			emit("m", sc)
+		}
+		for _, sc := range ksStallMatrix() {
+			emit("t", sc)
 		}
 	}
 	rng := verifRng(1313)
